@@ -112,6 +112,9 @@ structure Leaf where
   defCol : String
   /-- the type implements `schema.SerializerInterface` itself (field.go:187) -/
   selfSer : Bool := false
+  /-- the Go type is a pointer or an `sql.Null*` wrapper: `field.Set` of a literal default makes it non-zero (non-nil /
+      `Valid`), whatever the literal -/
+  ptr : Bool := false
   deriving Repr, Inhabited
 
 /-- the attributes of a parsed `*schema.Field` that the create path reads -/
@@ -130,6 +133,7 @@ structure AField where
   hasDefault : Bool := false
   defaultValue : String := ""
   defaultIface : Option DefVal := none
+  ptr : Bool := false
   creatable : Bool := true
   updatable : Bool := true
   readable : Bool := true
@@ -255,7 +259,7 @@ def parseField (l : Leaf) : AField :=
   { name := l.name, dbName := tagGet t "COLUMN", defCol := l.defCol, path := [l.name], gormDT := dt, typed := typed,
     primaryKey := checkTruth [tagGet t "PRIMARYKEY", tagGet t "PRIMARY_KEY"],
     autoInc := autoIncTag, autoIncInc := inc, hasDefault := hasDef, defaultValue := dp.value, defaultIface := dp.iface,
-    creatable := c, updatable := u, readable := r,
+    creatable := c, updatable := u, readable := r, ptr := l.ptr,
     autoCreate := autoTime t "AUTOCREATETIME" (l.name == "CreatedAt") dt,
     autoUpdate := autoTime t "AUTOUPDATETIME" (l.name == "UpdatedAt") dt,
     ignoreMigration := ign, tags := t, bad := bad0 || dp.bad, unmodelled := dp.unmodelled }
@@ -283,6 +287,8 @@ structure SchemaAttrs where
   dbNames : List String := []
   /-- `FieldsByDBName` as indices into `fields` -/
   byDB : List (String × Nat) := []
+  /-- the values of `FieldsByName` as indices into `fields` (one per bound Go name) -/
+  byName : List Nat := []
   primaryFields : List Nat := []
   prioritized : Option Nat := none
   /-- `FieldsWithDefaultDBValue` as indices into `fields` -/
@@ -371,6 +377,7 @@ def finish (fs0 : List AField) : SchemaAttrs :=
   let (fs2, prims2, prio) := prioritize fs1 st prims
   let (fs3, wd) := defaultsStep fs2 prio
   { fields := fs3, dbNames := st.dbNames, byDB := st.dbNames.filterMap (fun c => (assoc c st.byDB).map (fun e => (c, e.1))),
+    byName := (st.byName.map (·.1)).eraseDups.filterMap (fun n => (assoc n st.byName).map (·.1)),
     primaryFields := prims2, prioritized := prio, withDefaultDB := wd }
 
 /-! ## (iv) a struct declaration (first child / next sibling, as Model.Scan.EDecl) and its parse -/
@@ -413,18 +420,36 @@ def returningList (support : Bool) (s : SchemaAttrs) : Option (List String) :=
 
 def owner? (s : SchemaAttrs) (c : String) : Option AField := (assoc c s.byDB).bind (fun i => nth? s.fields i)
 
-/-- create.go:261-267 without Select/Omit: a column is listed when its field has no default or a literal one AND may be
-    created (`SelectAndOmitColumns(true,false)` maps every non-creatable field's column to false) -/
-def baseColsA (s : SchemaAttrs) : List String :=
-  s.dbNames.filter (fun c => match owner? s c with
-    | some f => (!f.hasDefault || f.defaultIface.isSome) && f.creatable
+/-- statement.go:732-745 `SelectAndOmitColumns(true, false)` without Select/Omit: every field bound in `FieldsByName` that
+    has no create permission maps ITS COLUMN — its Go name when it has no column — to false; create.go then looks the
+    map up by column name -/
+def blocked (s : SchemaAttrs) (c : String) : Bool :=
+  s.byName.any (fun i => match nth? s.fields i with
+    | some g => !g.creatable && (if g.dbName == "" then g.name else g.dbName) == c
     | none => false)
 
+/-- create.go:261-267 without Select/Omit: a column is listed when its field has no default or a literal one AND the
+    column is not blocked -/
+def baseColsA (s : SchemaAttrs) : List String :=
+  s.dbNames.filter (fun c => match owner? s c with
+    | some f => (!f.hasDefault || f.defaultIface.isSome) && !blocked s c
+    | none => false)
+
+def DefVal.nonzero : DefVal → Bool
+  | .bool b => b
+  | .int n => n != 0
+  | .str v => v != ""
+  | .float => true
+
 /-- create.go:348-355 (struct; `&& DefaultValueInterface == nil`) and :306-329 (slice; no such test): the DB-default
-    columns that are non-zero in the record / in some element, create permission required -/
+    columns that are non-zero in the record / in some element and not blocked.  In the slice branch the base-column loop
+    has already SUBSTITUTED a literal default into a zero field (create.go:293-295) when this loop looks at it: an integer
+    prioritized key with a literal default is then non-zero and its column is listed a second time. -/
 def extraColsA (single : Bool) (s : SchemaAttrs) (nonzero : Nat → Bool) : List String :=
   s.withDefaultDB.filterMap (fun i => match nth? s.fields i with
-    | some f => if f.creatable && (!single || f.defaultIface.isNone) && nonzero i then some f.dbName else none
+    | some f =>
+      let substituted := !single && (baseColsA s).contains f.dbName && ((f.defaultIface.map (fun d => d.nonzero || f.ptr)).getD false)
+      if !blocked s f.dbName && (!single || f.defaultIface.isNone) && (nonzero i || substituted) then some f.dbName else none
     | none => none)
 
 def insertColsA (single : Bool) (s : SchemaAttrs) (nonzero : Nat → Bool) : List String :=
